@@ -752,18 +752,25 @@ static const std::vector<std::string> &optPlanners()
 }
 
 static long g_c04MainCases = 0;
+static long g_c04ItBlockStart = 1L << 60;
 static void c04Planner(Sink &sink, const Args &a, long c, long idx)
 {
     const auto &OP = optPlanners();
     // goal-bookkeeping block (cases after the main block): every case has several goal states AND clears the solution paths
     // between the continued solves, with a reduced budget
     const bool gbBlock = idx >= g_c04MainCases;
-    if (gbBlock) idx = (idx - g_c04MainCases) + 7918 * OP.size() * 5;  // worlds of their own
-    const PInfo &pi = *findPlanner(OP[idx % OP.size()]);
+    // ... and a further block of such cases for the informed-tree planners alone (path length): they keep one cost per goal
+    // state and re-register incumbents after clearSolutionPaths(); which goal they visit first decides what is reported
+    const bool itBlock = idx >= g_c04ItBlockStart;
+    static const char *IT[] = {"AITstar", "EITstar", "EIRMstar"};
+    if (gbBlock && !itBlock) idx = (idx - g_c04MainCases) + 7918 * OP.size() * 5;  // worlds of their own
+    const long itIdx = idx - g_c04ItBlockStart;
+    const PInfo &pi = itBlock ? *findPlanner(IT[itIdx % 3]) : *findPlanner(OP[idx % OP.size()]);
     sink.subject(pi.name);
     long rest = idx / OP.size();
-    int objKind = rest % 5;
-    long widx = rest / 5;
+    int objKind = itBlock ? 0 : rest % 5;
+    long widx = itBlock ? 5000 + itIdx / 3 : rest / 5;
+    if (itBlock) sink.count("c04_informed_tree_goal_bookkeeping_cases");
     static const int KINDS[] = {K_R2, K_SE2, K_R3};
     int kind = KINDS[widx % 3];
     // FMT / BFMT use the objective's motion cost as the distance function of their nearest-neighbour structure, so only
@@ -1176,7 +1183,8 @@ int main(int argc, char **argv)
     else if (a.prop == "C04")
     {
         g_c04MainCases = (long)(optPlanners().size() * 5 * (a.thorough() ? 12 : 2) * a.scale);
-        g_c04PlannerCases = g_c04MainCases + (long)(optPlanners().size() * (a.thorough() ? 30 : 5) * a.scale);
+        g_c04ItBlockStart = g_c04MainCases + (long)(optPlanners().size() * (a.thorough() ? 30 : 5) * a.scale);
+        g_c04PlannerCases = g_c04ItBlockStart + (long)(3 * (a.thorough() ? 60 : 12) * a.scale);
         total = g_c04PlannerCases + (a.thorough() ? 20000 : 3000);
         fn = c04;
     }
